@@ -68,6 +68,47 @@ impl PropCase for Agree {
             let l = run_f1_from_buf(BufKind::Vec, s);
             ensure!(same(&base, &l, true), "F1/from_buf-vs-new", base_s.clone(), log_str(&l));
         }
+        // decode_streaming over a non-fused source: the input ends at the source's FIRST None (even mid-frame)
+        if !s.is_empty() {
+            let cut = (crate::rng::hash_bytes(s) as usize) % (s.len() + 1);
+            let want_cut = run_f1(BufKind::Vec, &s[..cut]);
+            let out = run_f3_unfused(&s[..cut], &s[cut..], 3);
+            let we: Vec<TEv> = want_cut.iter().map(|(_, e)| e.clone()).collect();
+            let ge: Vec<TEv> = out.log.iter().map(|(_, e)| e.clone()).collect();
+            ensure!(
+                ge == we && out.late.is_empty(),
+                "F3-unfused-source-vs-F1",
+                format!("{} then None on every further call", evs_str(&we)),
+                format!("{} late={:?}", evs_str(&ge), out.late)
+            );
+        }
+        // readers with the File and Parser target types: decode errors surface unchanged through T's error type,
+        // deliveries are what the parsers make of the delivered bytes
+        {
+            let env = ReaderEnv::from_bytes(s);
+            for target in [Target::File, Target::Parser] {
+                let mut rd = new_reader(&env, Src::IterVal, RBuf::Kind(BufKind::Vec));
+                for (k, (_, ev)) in base.iter().enumerate() {
+                    let out = rd.r.call(if k % 2 == 0 { Api::Next } else { Api::Read }, target);
+                    let ok = match (ev, &out) {
+                        (TEv::Ok(p), ROut::File(r)) => target == Target::File && *r == crate::conv::run_complete(p),
+                        (TEv::Ok(p), ROut::Events(r)) => {
+                            let w = crate::conv::run_streaming(p, 2);
+                            target == Target::Parser && r.events == w.events && r.first_err == w.first_err
+                        }
+                        (TEv::Err(DErr::Discarded(n)), ROut::IoErr(IoKind::Eof, m)) => n == m,
+                        (TEv::Err(e), ROut::DecodeErr(d)) => e == d,
+                        _ => false,
+                    };
+                    ensure!(
+                        ok,
+                        &format!("R/target-{:?}-vs-F1", target),
+                        format!("result #{}: {} (as {:?})", k, ev.short(), target),
+                        out.short()
+                    );
+                }
+            }
+        }
         // F1 with reset() instead of finalize(): the count must be the same number
         {
             let mut d = new_decoder(BufKind::Vec);
